@@ -91,7 +91,7 @@ CLAIMED = {
     "C13": ("CrossHair/z3 symbolic execution of BOTH real decoders (struct-based fast reader and declarative template) on "
             "payloads produced by the template's own serializer from a value with symbolic section flags / ids / State / "
             "path parameters, compared field by field; template re-encoding compared with the payload",
-            "Bounded symbolic differential checking of two implementations of one format; quick tier covers 6 section "
+            "Bounded symbolic differential checking of two implementations of one format; quick tier covers 7 section "
             "patterns x 2 object kinds, thorough all 2^11 patterns x 4 kinds (may be inconclusive within its budget).",
             "Trusted: CrossHair + z3 + struct patch (incl. the repeat-count fix); floats/UUIDs/TE/ExtraParams from the "
             "repo's sample payload; State byte from a 6-value catalogue.",
